@@ -377,6 +377,61 @@ def h_fields(ctx):
         ctx.flag("orders-differ")
     ctx.nontrivial(not nat)
 
+# ------------------------------------------------------------------------------------------------------
+def h_pit_x0(ctx):
+    """A variable with a discrete mass at x0: the PIT is randomised only where the file's own observation equals x0.  Everywhere else
+    the PIT returned for a coordinate is the PIT stored for that coordinate, whatever the storage order of the dimensions; at the
+    randomised cells it lies in [0, stored]."""
+    import verif.data
+    import verif.field
+    import verif.axis
+    seed = core.seed()
+    via = ctx.params["via"]
+    pt = ctx.choose("perm-times", PERMS[3], free=True)
+    ps = ctx.choose("perm-locs", PERMS[3], free=True)
+    pl = ctx.choose("perm-leads", PERMS[2], free=True)
+    locs = gen.std_locs(3, seed)
+    times = [T0, T0 + DAY, T0 + 2 * DAY]
+    leads = [0.0, 6.0]
+    ai = gen.AInput("A", permute(times, pt), permute(leads, pl), permute(locs, ps), variable="Precip", units="mm", x0=0.0)
+    scrambled(ai, ["obs", "fcst", "pit"], values(seed), 3)
+    stored = {}
+    for n_, pos in enumerate(sorted(ai.positions(), key=lambda p: (ai.times[p[0]], ai.leads[p[1]], ai.locs[p[2]][0]))):
+        key = (ai.times[pos[0]], ai.leads[pos[1]], ai.locs[pos[2]][0])
+        ai.fields["pit"][pos] = ((n_ * 5) % 16 + 1) / 17.0
+        if n_ % 4 == 1:
+            ai.fields["obs"][pos] = 0.0             # on the discrete mass
+        stored[key] = (ai.fields["obs"][pos], ai.fields["pit"][pos])
+    kind, data, site, out = CD.make_data([ai], via=via, subdir="c02pit")
+    if kind != "ok":
+        ctx.fail("pit-x0:data-%s:%s" % (kind, site), stdout=out[-200:])
+        return
+    kind, arr, site, _ = H.quiet_call(data.get_scores, verif.field.Pit(), 0, verif.axis.All(), None)
+    if kind != "ok":
+        ctx.fail("pit-x0:%s:%s" % (kind, site))
+        return
+    arr = np.asarray(arr, dtype=float)
+    T, L, S = [float(t) for t in data.times], [float(l) for l in data.leadtimes], [l.id for l in data.locations]
+    ctx.require(arr.shape == (len(T), len(L), len(S)), "pit-x0:shape", actual=list(arr.shape))
+    ndet = 0
+    for a, t in enumerate(T):
+        for b, l in enumerate(L):
+            for c, sid in enumerate(S):
+                o, pv = stored[(t, l, sid)]
+                g = float(arr[a, b, c])
+                if o != 0.0:
+                    ndet += 1
+                    if not abs(g - pv) <= 2e-6:
+                        ctx.fail("pit-x0:stored-pit-of-another-coordinate", time=t, leadtime=l, location=sid, expected=pv, actual=g)
+                elif not (-1e-9 <= g <= pv + 2e-6):
+                    ctx.fail("pit-x0:randomised-outside-0-stored", time=t, leadtime=l, location=sid, stored=pv, actual=g)
+    ctx.observe((pt, ps, pl))
+    ctx.outcome("via=%s" % via)
+    nat = pt == (0, 1, 2) and ps == (0, 1, 2) and pl == (0, 1)
+    if not nat:
+        ctx.flag("orders-differ")
+    ctx.nontrivial(not nat)
+
 
 def plan(tier):
     q = tier == "quick"
@@ -388,7 +443,8 @@ def plan(tier):
          ("repeat-mem", h_repeat, {"via": "mem"}), ("repeat-nc", h_repeat, {"via": "nc"}),
          ("order2", h_order, {"n": 2}), ("order3", h_order, {"n": 3}),
          ("columns", h_columns, {}),
-         ("fields-mem", h_fields, {"via": "mem"}), ("fields-text", h_fields, {"via": "text"}), ("fields-nc", h_fields, {"via": "nc"})]
+         ("fields-mem", h_fields, {"via": "mem"}), ("fields-text", h_fields, {"via": "text"}), ("fields-nc", h_fields, {"via": "nc"}),
+         ("pit-x0-mem", h_pit_x0, {"via": "mem"}), ("pit-x0-nc", h_pit_x0, {"via": "nc"})]
     if not q:
         p.append(("order4", h_order, {"n": 4}))
     return p
